@@ -41,3 +41,6 @@ ASSUMPTIONS = list(ASSUMPTIONS) + ["an integer argument is handed over as np.int
 
 # dimensions added in seeded round 10
 RULE = RULE + " Round 10: a fifth of the small file sets first hold an earlier recording of exactly the same byte size with a 4-byte longer header at the same paths (opened, read, dropped); free-text header strings of 0-700 characters in 12% of the sets."
+
+# dimensions added in seeded round 11
+RULE = RULE + " Round 11: a quarter of the large sets are cut into (almost) equal files of 100-140 thousand samples whose lengths differ by 0-2 samples."
